@@ -1496,9 +1496,8 @@ KNOWN_LIMITS = {
     "RF5-C07-01-counter-plain-u16": ("the identifier counter loses its `NonZeroU16` type: the non-zero argument of C07 is by type, the arithmetic replacement "
                                      "(`match n.wrapping_add(1) { 0 => 1, n => n }`) is not evaluated", ["C07/nz/"]),
     # round 5: other documented limits
-    "RF5-C01-04-control-action-methods": ("reference free functions become methods with *reordered* parameters (serialize_control_packet, "
-                                          "check_control_packet_size): positional argument rules lose the site", ["C04/offarena/", "C14/tx/"]),
-    "RF5-C03-05-pubrel-size-and-encode-as-methods": ("as above (serialize_pubrel / check_pubrel_size with regrouped parameters; queue_release takes a ready-made record)",
+    "RF5-C03-05-pubrel-size-and-encode-as-methods": ("reference functions become methods with *different* parameter sets (serialize_pubrel over a step record, "
+                                                     "check_pubrel_size on the entry type, queue_release taking a ready-made record): positional argument rules lose the sites",
                                                      ["C03/rel/id", "C03/wire/", "C04/offarena/", "C14/tx/"]),
     "RF5-C10-05-pingreq-decision-on-session-data": ("both keep-alive decision functions deleted, the enqueue folded into the two step loops: the `due` truth table is taken "
                                                     "of a loop-free function", ["C10/ANCHOR-LOST/due/"]),
